@@ -112,6 +112,9 @@ pub struct Interp {
 	pub locked: Option<LockedTree>,
 	/// per log file: number of bytes covered by the last successful sync (crash images)
 	pub sync_track: Option<crate::image::SyncTrack>,
+	pub commits_since_open: usize,
+	/// every root key id ever inserted (col, id)
+	pub ever_roots: BTreeSet<(u8, u16)>,
 }
 
 pub struct LockedTree {
@@ -157,6 +160,8 @@ impl Interp {
 			reads: 0,
 			locked: None,
 			sync_track: None,
+			commits_since_open: 0,
+			ever_roots: BTreeSet::new(),
 		}
 	}
 
@@ -199,6 +204,7 @@ impl Interp {
 		match Db::open_or_create(&opts) {
 			Ok(db) => {
 				self.db = Some(db);
+				self.commits_since_open = 0;
 				Ok(StepOut::Done)
 			},
 			Err(e) =>
@@ -339,7 +345,13 @@ impl Interp {
 				Change::InsertTree(k, spec) => {
 					let live = self.live_roots(col);
 					let mut root = *k;
-					while live.contains(&root) || used_roots.contains(&(col, root)) {
+					// With background workers a root key is never reused: re-inserting a key whose
+					// dereference may still be queued, while this harness briefly locks the new
+					// tree's reader, would trigger commit deferral (C11's domain, not this check's).
+					while live.contains(&root) ||
+						used_roots.contains(&(col, root)) ||
+						(self.background && self.ever_roots.contains(&(col, root)))
+					{
 						root = root.wrapping_add(1);
 					}
 					used_roots.insert((col, root));
@@ -410,6 +422,12 @@ impl Interp {
 
 	pub fn commit_resolved(&mut self, tx: &[(u8, RChange)]) -> Res<StepOut> {
 		let ops = self.to_operations(tx);
+		for (col, ch) in tx {
+			if let RChange::InsertTree(root, _) = ch {
+				self.ever_roots.insert((*col, *root));
+				self.universe[*col as usize].insert(*root);
+			}
+		}
 		let r = self.db().commit_changes(ops);
 		match r {
 			Ok(()) => {},
@@ -433,6 +451,7 @@ impl Interp {
 		}
 		self.stages.queued.push_back(self.committed);
 		self.committed += 1;
+		self.commits_since_open += 1;
 		if self.keep_prefix {
 			self.prefix.push(self.model.clone());
 		}
@@ -586,8 +605,8 @@ impl Interp {
 				self.iter_op(*col, iop)?;
 				return Ok(StepOut::Done)
 			},
-			Op::LockTree(..) | Op::UnlockTree => {
-				// handled by the C11 driver
+			Op::LockTree(..) | Op::UnlockTree | Op::Poison(..) | Op::BgError => {
+				// handled by the C08 / C11 drivers
 			},
 		}
 		if let Some(t) = self.sync_track.as_mut() {
@@ -656,7 +675,14 @@ impl Interp {
 
 	// ------------------------------------------------------------------ reading / checking
 
+	/// True when every accepted commit has certainly been written to the log. In stepping
+	/// mode process_commits is synchronous, so an empty queue suffices; with background workers
+	/// a commit may have left the queue but not reached the log yet, so only "no commit since
+	/// the last (re)open" is certain.
 	pub fn queue_empty(&self) -> bool {
+		if self.background {
+			return self.commits_since_open == 0
+		}
 		self.pipeline().0 == 0
 	}
 
